@@ -29,7 +29,7 @@ DEEP_FRESH = {"deepcopy", "model_copy", "model_dump", "model_dump_json", "dumps"
 ALIAS_METHODS = {"get", "values", "items", "keys", "__getitem__", "copy", "setdefault", "pop", "popitem", "__iter__", "__next__"}   # result aliases (part of) the receiver
 ASSUMED = [
     "TargetInput.model_validate(x) returns x itself or a new model (may alias x)",
-    "model_copy(deep=True), copy.deepcopy, model_dump*, json round trips return objects sharing nothing mutable with their argument",
+    "model_copy(deep=True) (literal flag), copy.deepcopy, model_dump*, json round trips return objects sharing nothing mutable with their argument; model_copy() without deep=True shares every sub-object with its receiver",
     "constructors of package classes return new objects and do not keep references to mutable arguments other than configuration objects",
     "list/dict/set/tuple/sorted/zip/enumerate/comprehensions create a new container whose elements alias the source's elements",
     "numpy / pandas / scipy / CoolProp functions do not modify their array arguments except through out= and the listed in-place methods (fill, sort)",
@@ -247,7 +247,17 @@ class Analyzer(ast.NodeVisitor):
             for a in args:
                 out |= {("elem", _roots(o)) for o in a if o != FRESH}
             return out or {FRESH}
-        if name in ("deepcopy", "model_copy", "model_dump", "model_dump_json"):
+        if name == "model_copy" and recv is not None:
+            deep = any(k.arg == "deep" and isinstance(k.value, ast.Constant) and k.value.value is True for k in e.keywords)
+            if deep:
+                return {FRESH}
+            # shallow copy: a new top-level object (mutating IT is local) whose fields still refer to the receiver's sub-objects and to
+            # the `update` values
+            out = {("elem", _roots(o)) for o in recv if o != FRESH}
+            for v in kw.values():
+                out |= {("elem", _roots(o)) for o in v if o != FRESH}
+            return out or {FRESH}
+        if name in ("deepcopy", "model_dump", "model_dump_json"):
             return {FRESH}
         cands = []
         if isinstance(fn, ast.Name):
